@@ -111,11 +111,11 @@ Fixpoint predict (W : world) (Ly : layout) (SL : list (Z * Z)) (q : simq) (pis :
           | Some t, p :: pis' =>
               if pi_task p =? t then
                 match predict W Ly SL q' pis' rest with
-                | Some os => Some (placement_outcome W Ly SL (q_sim q') p :: os)
+                | Some os => Some ((if pi_exact p then placement_outcome W Ly SL (q_sim q') p else OSkip) :: os)
                 | None => None
                 end
               else None
-          | Some _, [] => None
+          | Some _, [] => Some []      (* the harness stops at a handler that never returned (aborted run) *)
           | None, _ => predict W Ly SL q' pis rest
           end
       end
